@@ -20,7 +20,7 @@ RULE = ("Hypothesis draws a twice-differentiable scalar recipe (depth <= 3; gene
         "second-order forward-mode jet at regular points (distance >= 0.1 from kinks/poles).  Non-trivial = "
         "some off-diagonal reference entry is non-zero, or a fast path / non-own V was used."
         '  Also: parameters are updated after compilation and the compiled, symbolic and solver-held Hessians are judged again at the new values.')
-BUDGET = {"quick": {"workers": 16, "examples": 400}, "thorough": {"workers": 16, "examples": 2000}}
+BUDGET = {"quick": {"workers": 16, "examples": 700}, "thorough": {"workers": 16, "examples": 3000}}
 ASSUMPTIONS = ["jet rules validated against mpmath at start-up", "points closer than 0.1 to a singular set are not judged"]
 MANIFEST = {
  "technique": "property-based testing (Hypothesis): symbolic + compiled + solver-captured Hessians vs second-order forward-mode jets",
